@@ -1,6 +1,6 @@
 (* Props/C06.v -- property C06: interrupt requests are accepted, refused, dispatched and retired per Z80 rules.
    C06_tie: the generated Step IS spec_step; the clauses are theorems about spec_step / try_interrupt. *)
-From Z80V Require Import Proofs.SpecFacts.
+From Z80V Require Import Proofs.SpecFacts Proofs.Frame Proofs.Iter.
 
 Theorem C06_tie : forall cpu, WF cpu -> Step cpu = spec_step impl_unspec cpu.
 Proof. exact Step_ok. Qed.
@@ -67,3 +67,23 @@ Example C06_example :
   let cpu := s_IR_Hi (s_IM (s_IFF1 (s_Interrupt cpu0 (Some (mk_Interrupt 1 [18]))) true) 2) 64 in
   g_PC (spec_step impl_unspec cpu) = 0 /\ g_IFF1 (spec_step impl_unspec cpu) = false /\ g_Interrupt (spec_step impl_unspec cpu) = None.
 Proof. vm_compute. repeat split. Qed.
+
+(* ---- requests over time ----
+   a refused maskable request is still pending, unchanged, after the Step (which was the plain instruction step): it is
+   therefore offered again at every following boundary until IFF1 is set; an accepted request is retired; with nothing
+   pending nothing appears.  Together with C06_tie / iter_ok these hold for the generated Step along any execution. *)
+Theorem C06_refused_request_stays : forall u cpu irq, g_Interrupt cpu = Some irq -> Interrupt_Type irq <> 0 -> g_IFF1 cpu = false ->
+  spec_step u cpu = step_instr u cpu /\ g_Interrupt (spec_step u cpu) = Some irq.
+Proof. exact refused_request_stays. Qed.
+Print Assumptions C06_refused_request_stays.
+Theorem C06_accepted_request_retired : forall u cpu irq, g_Interrupt cpu = Some irq ->
+  (Interrupt_Type irq = 0 \/ (g_IFF1 cpu = true /\ (g_IM cpu = 0 \/ g_IM cpu = 1 \/ g_IM cpu = 2))) ->
+  g_Interrupt (spec_step u cpu) = None.
+Proof. exact accepted_request_retired. Qed.
+Print Assumptions C06_accepted_request_retired.
+Theorem C06_no_request_appears : forall u cpu, g_Interrupt cpu = None -> g_Interrupt (spec_step u cpu) = None.
+Proof. exact no_request_appears. Qed.
+Print Assumptions C06_no_request_appears.
+Theorem C06_generated_steps : forall n cpu, WF cpu -> iter n cpu = spec_iter impl_unspec n cpu /\ WF (iter n cpu).
+Proof. intros n cpu H. split; [apply iter_ok, H | apply iter_WF, H]. Qed.
+Print Assumptions C06_generated_steps.
